@@ -832,9 +832,11 @@ func (c *updater) buildBackendProtocol(d *backData) {
 		var crtFile convtypes.CrtFile
 		namespace, name, err := crt.NamespacedName()
 		if err == nil {
+			// the namespace of the source, not the one of the secret, is the default
+			// namespace, otherwise cross namespace access isn't validated
 			crtFile, err = c.cache.GetTLSSecretPath(
-				namespace,
-				name,
+				crt.sourceNamespace(),
+				namespace+"/"+name,
 				[]convtypes.TrackingRef{{Context: convtypes.ResourceHABackend, UniqueName: d.backend.ID}},
 			)
 		}
@@ -871,8 +873,8 @@ func (c *updater) buildBackendProtocol(d *backData) {
 		namespace, name, err := ca.NamespacedName()
 		if err == nil {
 			caFile, crlFile, err = c.cache.GetCASecretPath(
-				namespace,
-				name,
+				ca.sourceNamespace(),
+				namespace+"/"+name,
 				[]convtypes.TrackingRef{{Context: convtypes.ResourceHABackend, UniqueName: d.backend.ID}},
 			)
 		}
